@@ -364,7 +364,7 @@ func (e *FE) callGen(call ssa.CallInstruction) Facts {
 		g = e.c.unwrap(g)
 		var s Facts
 		if mr, ok := e.mustRet[g]; ok {
-			s = mr.with("called:" + e.c.Name(g))
+			s = e.instantiate(mr, g, call).with("called:" + e.c.Name(g))
 		} else {
 			s = emptyFacts().with("called:" + e.c.Name(g))
 		}
@@ -392,7 +392,7 @@ func (e *FE) okFacts(call ssa.CallInstruction) Facts {
 		g = e.c.unwrap(g)
 		var s Facts
 		if mo, ok := e.mustOK[g]; ok {
-			s = mo.with("ok:" + e.c.Name(g))
+			s = e.instantiate(mo, g, call).with("ok:" + e.c.Name(g))
 		} else {
 			s = emptyFacts().with("ok:" + e.c.Name(g))
 		}
@@ -511,6 +511,24 @@ func (e *FE) condFacts(v ssa.Value, truth bool, depth int) Facts {
 			return emptyFacts().with("passed:" + s)
 		}
 	case *ssa.Call, *ssa.Extract:
+		if cl, isCall := x.(*ssa.Call); isCall && depth < 6 {
+			// a new straight-line predicate helper: the condition is its result expression, for these arguments
+			if sc := cl.Call.StaticCallee(); sc != nil && len(sc.Params) == len(cl.Call.Args) {
+				if rv := e.c.inlinable(sc); rv != nil && isBoolType(rv.Type()) {
+					bind := map[*ssa.Parameter]ssa.Value{}
+					for i, p := range sc.Params {
+						bind[p] = cl.Call.Args[i]
+					}
+					save := e.c.tenv
+					e.c.tenv = &termEnv{bind: bind, up: save}
+					sub := e.condFacts(rv, truth, depth+1)
+					e.c.tenv = save
+					if !sub.top {
+						return sub
+					}
+				}
+			}
+		}
 		fs := emptyFacts()
 		if call := statusCall(x); call != nil {
 			if truth {
@@ -687,7 +705,65 @@ func (e *FE) At(in ssa.Instruction) Facts {
 }
 
 // LocalAt: facts established inside the enclosing function only.
-func (e *FE) LocalAt(in ssa.Instruction) Facts { return e.factsBefore(in) }
+// Inside a new single-use helper (terms.go) the facts established in its caller before the call hold too.
+func (e *FE) LocalAt(in ssa.Instruction) Facts {
+	fs := e.factsBefore(in)
+	f := in.Parent()
+	for i := 0; i < 4; i++ {
+		cs := e.c.soleCall(f)
+		if cs == nil {
+			break
+		}
+		fs = fs.union(stripLocal(e.factsBefore(cs)))
+		f = cs.Parent()
+	}
+	return fs
+}
+
+// instantiate: the summary facts of a new helper with several call sites speak about its parameters ($name); at a
+// call site they are restated for the arguments.
+func (e *FE) instantiate(fs Facts, g *ssa.Function, call ssa.CallInstruction) Facts {
+	if fs.top || !e.c.isNew(g) || e.c.soleCall(g) != nil || call.Common().IsInvoke() || len(g.Params) != len(call.Common().Args) {
+		return fs
+	}
+	out := emptyFacts()
+	for k := range fs.m {
+		if strings.Contains(k, "$") {
+			nk := k
+			for i, p := range g.Params {
+				tok := "$" + e.c.paramName(p)
+				if !strings.Contains(nk, tok) {
+					continue
+				}
+				nk = replaceToken(nk, tok, e.c.Term(call.Common().Args[i]))
+			}
+			out.m[nk] = struct{}{}
+			continue
+		}
+		out.m[k] = struct{}{}
+	}
+	return out
+}
+
+func replaceToken(s, tok, with string) string {
+	var b strings.Builder
+	for {
+		i := strings.Index(s, tok)
+		if i < 0 {
+			b.WriteString(s)
+			return b.String()
+		}
+		end := i + len(tok)
+		if end < len(s) && (s[end] == '_' || s[end] >= '0' && s[end] <= '9' || s[end] >= 'a' && s[end] <= 'z' || s[end] >= 'A' && s[end] <= 'Z') {
+			b.WriteString(s[:end])
+			s = s[end:]
+			continue
+		}
+		b.WriteString(s[:i])
+		b.WriteString(with)
+		s = s[end:]
+	}
+}
 
 // After: facts right after a call instruction returned.
 func (e *FE) After(in ssa.Instruction) Facts {
